@@ -789,6 +789,13 @@ class Engine:
     def st_Pass(self, st, fr):
         return
 
+    def st_ImportFrom(self, st, fr):
+        # a function-level `from trie.x import a, b`: bind the names as the module loader would
+        tmp = ModuleNS(fr.module.name, fr.module.path)
+        self.loader._stmt(tmp, st)
+        for k, v in tmp.ns.items():
+            fr.locals[k] = v
+
     def st_Return(self, st, fr):
         raise _Ret(self.ev(st.value, fr) if st.value is not None else None)
 
@@ -1971,7 +1978,7 @@ class Engine:
         return None
 
     # comprehensions: concrete iterables are unrolled; symbolic ones go through lib summaries
-    def comp_items(self, node, fr, elt_fn):
+    def comp_items(self, node, fr, elt_fn, cond_ok=False):
         out = []
 
         def rec(gi, frame):
@@ -1987,25 +1994,64 @@ class Engine:
                 self.assign(g.target, x, frame)
                 ok = True
                 for c in g.ifs:
-                    if not self.decide(self.ev(c, frame)):
+                    cv = ops.truth(self.ev(c, frame))
+                    if cond_ok and isinstance(cv, SBool) and len(node.generators) == 1 and len(g.ifs) == 1 \
+                            and not self.implied(cv) and not self.implied(ops.s_not(cv)):
+                        # a filter the path does not decide: keep the element under its condition instead of
+                        # forking (the result becomes a sequence term built from conditional units)
+                        conds.append((len(out), cv))
+                        continue
+                    if not self.decide(cv):
                         ok = False
                         break
                 if ok:
                     rec(gi + 1, frame)
         sub = Frame(fr.func, fr.module, {}, fr)
+        conds = []
         rec(0, sub)
+        if conds:
+            return self.conditional_seq(out, dict(conds))
         return out
+
+    def conditional_seq(self, items, conds):
+        """sequence value of [items[i] if conds[i]] (items without a condition are always present)"""
+        kinds = set()
+        for x in items:
+            if ops.is_intlike(x) and not isinstance(x, (bool, SBool)):
+                kinds.add("int")
+            elif isinstance(x, bytes) or (isinstance(x, SSeq) and x.kind == "bytes" and x.elem == "int"):
+                kinds.add("bytes")
+            elif (isinstance(x, tuple) and ops.seq_elem(x) == "int") or (isinstance(x, SSeq) and x.kind == "tuple" and x.elem == "int"):
+                kinds.add("tuple")
+            else:
+                raise Unsupported("conditional comprehension element %r" % (x,))
+        if len(kinds) != 1:
+            raise Unsupported("conditional comprehension with mixed elements")
+        elem = kinds.pop()
+        srt = SeqI if elem == "int" else SeqSeqI
+        parts = []
+        for i, x in enumerate(items):
+            u = z3.Unit(as_int_term(x) if elem == "int" else ops.seq_term(x))
+            parts.append(z3.If(as_bool_term(conds[i]), u, z3.Empty(srt)) if i in conds else u)
+        t = parts[0] if len(parts) == 1 else (z3.Concat(*parts) if parts else z3.Empty(srt))
+        return _CondSeq(SSeq(t, "tuple", elem))      # not simplified: z3 would hoist the conditions (2^n cases)
 
     def ev_ListComp(self, node, fr):
         try:
-            return ListObj(items=self.comp_items(node, fr, lambda f: self.ev(node.elt, f)))
+            r = self.comp_items(node, fr, lambda f: self.ev(node.elt, f), cond_ok=True)
+            if isinstance(r, _CondSeq):
+                return ListObj(seq=SSeq(r.seq.t, "list", r.seq.elem))
+            return ListObj(items=r)
         except _SymbolicComp as sc:
             from pyvc import lib
             return lib.symbolic_comp(self, node, fr, sc, "list")
 
     def ev_GeneratorExp(self, node, fr):
         try:
-            return GenIter(self.comp_items(node, fr, lambda f: self.ev(node.elt, f)))
+            r = self.comp_items(node, fr, lambda f: self.ev(node.elt, f), cond_ok=True)
+            if isinstance(r, _CondSeq):
+                return _GenOutIter(r.seq)
+            return GenIter(r)
         except _SymbolicComp as sc:
             from pyvc import lib
             return lib.symbolic_comp(self, node, fr, sc, "gen")
@@ -2027,6 +2073,13 @@ class Engine:
         for k, v in pairs:
             self.dict_store(d, k, v)
         return d
+
+
+class _CondSeq:
+    """result of a comprehension over a concrete iterable with filters the path does not decide"""
+
+    def __init__(self, seq):
+        self.seq = seq
 
 
 class _SymbolicComp(Exception):
